@@ -330,7 +330,7 @@ Definition ex_ts : tseq :=
   mkTs 8 5
     [mkEdge 0 4 3 0; mkEdge 0 4 3 1; mkEdge 2 6 3 2; mkEdge 0 8 4 3; mkEdge 4 8 4 0; mkEdge 4 8 4 1]
     [0; 1; 3; 2; 4; 5] [0; 1; 2; 3; 4; 5] [0; 2; 4; 6; 8]
-    [1; 1; 1; 1; 0] [[0]; []; [1]; []] 2 [0; 1; 0; 0; 0; 1].
+    [1; 1; 1; 1; 0] [[0]; []; [1]; []] 2 [0; 1; 0; 0; 0; 1] [0; 0; 0; 1; 2].
 
 Example ex_ts_valid : valid_tsb ex_ts = true.
 Proof. vm_compute. reflexivity. Qed.
